@@ -132,6 +132,7 @@ Definition spec_fielddef (c : coldef) : fielddef :=
 Definition spec_exec (d : db) (st : stmt) : sres :=
   match st with
   | SCreateTable n cols =>
+      if negb (names_distinct (map cd_name cols)) then SpecErr EOther else
       match find_tbl n d with
       | Some _ => SpecErr ETableExists
       | None => SpecOk (d ++ [mkTbl n (map spec_fielddef cols) []])
